@@ -1910,6 +1910,66 @@ fn table_unit_parsers(src: &Src, name: &str) -> Result<(String, usize, usize), S
 }
 
 // ---------------------------------------------------------------- R8: expression extraction
+
+/// R8 (suffix): the statements of a function body that follow its (single, top-level) `while` loop become a
+/// function whose parameters are the variables live at that point (given by the plan).  The loop and everything
+/// before it are dropped (listed as unverified).  The suffix is copied verbatim up to logged R12 substitutions;
+/// `fields[0].ty` carries the return type text, `fields[0].name` optional generics.
+#[allow(clippy::too_many_arguments)]
+fn suffix_after_while(
+    src: &Src,
+    block: &syn::Block,
+    func: &str,
+    name: &str,
+    params: &str,
+    ensures: &[String],
+    subst: &[Subst],
+    fields: &[FieldSpec],
+    fs: usize,
+    fe: usize,
+    log: &mut Log,
+) -> Result<(String, usize, usize), String> {
+    let widx = block
+        .stmts
+        .iter()
+        .position(|st| matches!(st, syn::Stmt::Expr(syn::Expr::While(_), _)))
+        .ok_or(format!("{}: no top-level `while` statement", func))?;
+    if block.stmts[widx + 1..].iter().any(|st| matches!(st, syn::Stmt::Expr(syn::Expr::While(_), _))) {
+        return Err(format!("{}: more than one top-level `while`", func));
+    }
+    let mut body = String::new();
+    for st in &block.stmts[widx + 1..] {
+        let (s, e) = br(st.span());
+        body.push_str("    ");
+        body.push_str(&src.text[s..e]);
+        body.push('\n');
+    }
+    let (generics, ret) = match fields.first() {
+        Some(f0) => (f0.name.clone(), f0.ty.clone()),
+        None => return Err("suffix: return type missing (fields[0].ty)".into()),
+    };
+    let ens = if ensures.is_empty() { String::new() } else { format!("    ensures\n        {},\n", ensures.join(",\n        ")) };
+    let mut text = format!(
+        "/// R8 (suffix of `{}` after its scan loop)\n#[allow(unused_variables, unused_mut, unused_assignments)]\npub fn {}{}({}) -> (r: {})\n{}{{\n{}}}\n",
+        func, name, generics, params, ret, ens, body
+    );
+    for sb in subst {
+        let n = text.matches(&sb.find).count();
+        if n == 0 {
+            return Err(format!("R12: pattern `{}` not found in suffix of {}", short(&sb.find), func));
+        }
+        text = text.replace(&sb.find, &sb.replace);
+        log.rewrites.push(Rewrite { rule: format!("R12-subst ({})", sb.why), item: format!("{}/suffix", func), orig: sb.find.clone(), repl: sb.replace.clone() });
+    }
+    log.rewrites.push(Rewrite {
+        rule: "R8-suffix-extraction".into(),
+        item: format!("{}/suffix_after_while", func),
+        orig: "<lets>; while <scan> { .. } <suffix>".into(),
+        repl: "fn(..variables live after the loop..) { <suffix> }; the loop and the lets before it are dropped".into(),
+    });
+    Ok((text, fs, fe))
+}
+
 /// R8 expression extraction from a function that is out of Verus' reach as a whole.
 /// The generated function consists of the *prefix* of the real body (every statement before the
 /// tail expression, verbatim up to the logged R12 substitutions) followed by
@@ -1933,6 +1993,20 @@ fn extract_exprs(
 ) -> Result<(String, usize, usize), String> {
     let mut items = Vec::new();
     collect_items(&src.file.items, &mut items);
+    if self_ty.is_empty() {
+        for it in &items {
+            if let syn::Item::Fn(f) = it {
+                if f.sig.ident == func && !skip_by_cfg(&f.attrs) {
+                    let (fs, fe) = br(f.span());
+                    if what == "suffix_after_while" {
+                        return suffix_after_while(src, &f.block, func, name, params, ensures, subst, fields, fs, fe, log);
+                    }
+                    return Err(format!("exprs kind `{}` is not available for free functions", what));
+                }
+            }
+        }
+        return Err(format!("free fn {} not found", func));
+    }
     for it in items {
         if let syn::Item::Impl(im) = it {
             if im.trait_.is_some() || last_seg(&im.self_ty) != self_ty {
@@ -1944,6 +2018,9 @@ fn extract_exprs(
                         continue;
                     }
                     let (fs, fe) = br(f.span());
+                    if what == "suffix_after_while" {
+                        return suffix_after_while(src, &f.block, &f.sig.ident.to_string(), name, params, ensures, subst, fields, fs, fe, log);
+                    }
                     let tail = match f.block.stmts.last() {
                         Some(syn::Stmt::Expr(syn::Expr::If(i), None)) => i,
                         _ => return Err(format!("{}::{}: tail is not an if-chain", self_ty, func)),
